@@ -608,6 +608,30 @@ extend("C11",
        "setHeightOne_atoms) and tied from arbitrary cache states.",
        "cache invalidation by temperature or dimension changes is oracle-only.")
 
+extend("C10",
+       "Libraries without nuclides (built so or purged) still hand their group structure and file metadata over to an empty target and "
+       "are rejected on a structure or metadata conflict in every order (merge_nuclide_free_conflict_rejected, merge_into_empty_target); "
+       "createMacrosOnBlocklist over blocks with different nuclide sets; every callee of the merge compared with its model definition "
+       "function by function.", "")
+extend("C01",
+       "Every list a query hands back is mutated or kept by the caller without the tree noticing; the re-ordering and "
+       "remove-while-iterating idioms are ops, with setChildren_exact, reorder_idiom and drain_idiom proved; after every edit, every "
+       "direct-children query on the edited parent is re-asked and compared with the raw child lists (typed_queries_follow_edits); "
+       "setType/flag changes and clearCache are part of the histories; a raise out of the real code is a keyed failure with a replay.",
+       "query results are values in the model, so aliasing and stale per-object caches are carried by the oracle plus the idiom theorems; "
+       "the reorder idiom is not run on the Core object itself.")
+extend("C20",
+       "By-component averaging is judged like with like: blockSimilarity_positions proves that it is chosen only when flags agree at every "
+       "shared sorted position; generated members with permuted radial order (annular/solid slugs), missing components and mixed "
+       "weightings are judged on the representative actually built.", "")
+extend("C19",
+       "The density and expansion correlations that are piecewise polynomials are regenerated from the source by symbolic execution on "
+       "every run (Gen/MaterialTable.lean) and proved by kernel-checked interval Horner arithmetic to be positive (densities) or bounded "
+       "(expansions) at every temperature of the stated range (correlations_bounded, base_formula_densities_positive); the remaining "
+       "correlations (fractional powers, rational functions, no stated range) stay sampled and are named in the evidence.",
+       "extraction by symbolic execution is validated by sampled correspondence (1250 points per quick run), not proved; theorems are over "
+       "rationals, not floats.")
+
 NOT_YET = {}
 
 ALL = [f"C{n:02d}" for n in range(1, 21)]
